@@ -11,7 +11,7 @@ variable {R : Con → Prop} {RE : Exp → Prop} {E : Env}
 /-- replacing any answers of the backend by `unknown` keeps all the hypotheses of the refinement theorems -/
 theorem SolverHyps.giveUpMore (H : SolverHyps R RE E) (o' : Query → Nat → Answer)
     (ho : ∀ q k, o' q k = E.oracle q k ∨ o' q k = .unknown) : SolverHyps R RE { E with oracle := o' } := by
-  refine ⟨⟨H.reg.faithful, H.reg.wf, H.reg.simp_closed, H.reg.falseR, H.reg.falseSem⟩, H.zid, ?_, H.simpOn, H.simpVars,
+  refine ⟨⟨H.reg.faithful, H.reg.varsId, H.reg.wf, H.reg.simp_closed, H.reg.falseR, H.reg.falseSem⟩, H.zid, ?_, H.simpOn, H.simpVars,
     H.cheap, H.pick, H.expReg, ⟨?_, ?_⟩, H.triv, H.build⟩
   · intro q k
     show match o' q k with
